@@ -516,8 +516,10 @@ def eval_c17(item):
         return out
     runs = []
     try:
-        for _ in range(2):
-            B = Gr.build(G)
+        # the same content submitted again, built the same way and in every other construction style / order (keyword
+        # arguments or attribute assignment, forward or reverse order): the order of assignment is not content
+        for style, rev in (("kw", False), ("kw", False), ("kw", True), ("assign", False), ("assign", True)):
+            B = Gr.build(G, style, rev)
             presealed = {l for l in G["nodes"] if "output_of" not in G["nodes"][l]
                          and (B.tasks[l] if l in B.tasks else B.objs[l]).__xpm__._sealed}
             Gr.seal_root(G, B)
@@ -543,11 +545,13 @@ def eval_c17(item):
         if str(rel) in seen:
             out["problems"].append({"kind": "same-path", "a": list(seen[str(rel)]), "b": [l, f], "path": str(rel)})
         seen[str(rel)] = (l, f)
-    j2, p2 = runs[1]
     r1 = {k: (str(Path(v).relative_to(jobpath)) if v is not None and Path(v).is_relative_to(jobpath) else str(v)) for k, v in paths.items()}
-    r2 = {k: (str(Path(v).relative_to(j2)) if v is not None and Path(v).is_relative_to(j2) else str(v)) for k, v in p2.items()}
-    if r1 != r2 or str(jobpath) != str(j2):
-        out["problems"].append({"kind": "not-reproducible", "first": {f"{k[0]}.{k[1]}": v for k, v in r1.items()}, "second": {f"{k[0]}.{k[1]}": v for k, v in r2.items()}})
+    for how, (j2, p2) in zip(("same", "kw-reversed", "assign", "assign-reversed"), runs[1:]):
+        r2 = {k: (str(Path(v).relative_to(j2)) if v is not None and Path(v).is_relative_to(j2) else str(v)) for k, v in p2.items()}
+        if r1 != r2 or str(jobpath) != str(j2):
+            out["problems"].append({"kind": "not-reproducible", "how": how, "first": {f"{k[0]}.{k[1]}": v for k, v in r1.items()},
+                                    "second": {f"{k[0]}.{k[1]}": v for k, v in r2.items()}})
+            break
     return out
 
 
